@@ -70,11 +70,115 @@ def _same(a, b):
     return z3.simplify(a - b).eq(ZERO) if a.sort() == RS else z3.simplify(a - b).eq(z3.IntVal(0))
 
 
-class SV:
-    __slots__ = ("k", "l", "p")
+SHIFT_SYMS = {}
 
-    def __init__(self, k, l=None, p=None):
-        self.k, self.l, self.p = k, l, p
+
+def shift_symbol(name):
+    v = z3.Real(name)
+    SHIFT_SYMS[name] = v
+    return v
+
+
+def _is_shift(e):
+    return e is not None and z3.is_const(e) and e.decl().kind() == z3.Z3_OP_UNINTERPRETED and str(e) in SHIFT_SYMS
+
+
+def _shift_factors(e):
+    """list of shift symbols if the z3 term e is a product of shift symbols only, else None"""
+    if e is None:
+        return None
+    if _is_shift(e):
+        return [e]
+    if z3.is_app(e) and e.decl().kind() == z3.Z3_OP_MUL:
+        out = []
+        for c in e.children():
+            f = _shift_factors(c)
+            if f is None:
+                if z3.is_rational_value(c) and c.as_fraction() == 1:
+                    continue
+                return None
+            out += f
+        return out
+    return None
+
+
+def _den_expr(d):
+    r = None
+    for name, var, k in d:
+        for _ in range(k):
+            r = var if r is None else r * var
+    return ONE if r is None else r
+
+
+def _den_merge(d1, d2):
+    if not d1:
+        return d2
+    if not d2:
+        return d1
+    m = {}
+    for name, var, k in tuple(d1) + tuple(d2):
+        if name in m:
+            m[name] = (var, m[name][1] + k)
+        else:
+            m[name] = (var, k)
+    return tuple(sorted((n, v, k) for n, (v, k) in m.items() if k > 0))
+
+
+def _den_remove(d, name):
+    """remove one power of `name` from d; returns (new_d, removed?)"""
+    if not d:
+        return d, False
+    out, done = [], False
+    for n, v, k in d:
+        if n == name and not done:
+            done = True
+            if k > 1:
+                out.append((n, v, k - 1))
+        else:
+            out.append((n, v, k))
+    return (tuple(out) or None), done
+
+
+def _den_lcm(d1, d2):
+    m = {}
+    for name, var, k in tuple(d1 or ()) + tuple(d2 or ()):
+        if name in m:
+            m[name] = (var, max(m[name][1], k))
+        else:
+            m[name] = (var, k)
+    return tuple(sorted((n, v, k) for n, (v, k) in m.items()))
+
+
+def _den_quot(big, small):
+    """big / small as a z3 product (small divides big)"""
+    sm = {n: k for n, v, k in (small or ())}
+    r = None
+    for n, v, k in big or ():
+        for _ in range(k - sm.get(n, 0)):
+            r = v if r is None else r * v
+    return r
+
+
+def _mul_opt(x, f):
+    return x if f is None else x * f
+
+
+class SV:
+    __slots__ = ("k", "l", "p", "d")
+
+    def __init__(self, k, l=None, p=None, d=None):
+        # d: optional denominator, a monomial in SHIFT symbols ((name, z3var, power), ...) dividing p (log-kind) or
+        # l (pure-linear kind).  It keeps the stabilising shifts of log-space code out of the z3 terms (no division).
+        self.k, self.l, self.p, self.d = k, l, p, (d or None)
+
+    def flat(self):
+        """the same value with the denominator folded into the z3 term"""
+        if self.d is None:
+            return self
+        den = _den_expr(self.d)
+        if self.p is not None:
+            return SV("real", self.l, self.p / den)
+        return SV("real", self.l / den)
 
     # ---- constructors -------------------------------------------------------------------------
     @staticmethod
@@ -120,6 +224,8 @@ class SV:
     def is_const(self):
         if self.k == "pinf":
             return True
+        if self.d is not None:
+            return False
         if self.k == "bool":
             return z3.is_true(self.l) or z3.is_false(self.l)
         if self.k == "int":
@@ -130,6 +236,8 @@ class SV:
         """python value of a constant SV (else None)"""
         if self.k == "pinf":
             return math.inf
+        if self.d is not None:
+            return None
         if self.k == "bool":
             s = z3.simplify(self.l)
             return True if z3.is_true(s) else False if z3.is_false(s) else None
@@ -163,6 +271,8 @@ class SV:
         raise Unsupported("real -> int")
 
     def tobool(self):
+        if self.d is not None:
+            return self.flat().tobool()
         if self.k == "bool":
             return self
         if self.k == "int":
@@ -178,7 +288,7 @@ class SV:
 
     def lin(self):
         """z3 Real of a pure-linear value (p == 1)"""
-        s = self.toreal()
+        s = self.toreal().flat()
         if s.k != "real" or s.p is not None:
             raise Unsupported("linear view of log-kind value")
         return s.l
@@ -186,7 +296,7 @@ class SV:
     # ---- arithmetic ---------------------------------------------------------------------------
     @staticmethod
     def _arith2(a, b):
-        a, b = SV.lift(a), SV.lift(b)
+        a, b = SV.lift(a).flat(), SV.lift(b).flat()
         if a.k == "bool" and b.k == "bool":
             a, b = a.toint(), b.toint()
         if a.k == "bool":
@@ -200,6 +310,9 @@ class SV:
     def __add__(self, o):
         if isinstance(o, np.ndarray) and o.ndim > 0:
             return NotImplemented
+        r = _den_add(self, o)
+        if r is not None:
+            return r
         a, b, k = SV._arith2(self, o)
         if k == "int":
             return SV("int", a.l + b.l)
@@ -216,7 +329,9 @@ class SV:
     def __neg__(self):
         if self.k == "int":
             return SV("int", -self.l)
-        a = self.toreal()
+        if self.k == "real" and self.d is not None and self.p is None:
+            return SV("real", -self.l, None, self.d)
+        a = self.toreal().flat()
         if a.k == "pinf":
             return SV("real", ZERO, ZERO)
         if a.p is None:
@@ -233,6 +348,9 @@ class SV:
     def __sub__(self, o):
         if isinstance(o, np.ndarray) and o.ndim > 0:
             return NotImplemented
+        r = _den_sub(self, o)
+        if r is not None:
+            return r
         a, b, k = SV._arith2(self, o)
         if k == "int":
             return SV("int", a.l - b.l)
@@ -244,6 +362,9 @@ class SV:
     def __mul__(self, o):
         if isinstance(o, np.ndarray) and o.ndim > 0:
             return NotImplemented
+        r = _den_mul(self, o)
+        if r is not None:
+            return r
         a, b, k = SV._arith2(self, o)
         if k == "int":
             return SV("int", a.l * b.l)
@@ -349,8 +470,8 @@ class SV:
             for _ in range(n - 1):
                 r = r * self
             return r
-        a = self.toreal()
-        b = b.toreal()
+        a = self.toreal().flat()
+        b = b.toreal().flat()
         if a.k == "pinf" or b.k == "pinf" or a.p is not None or b.p is not None:
             raise Unsupported("pow of log-kind")
         return SV("real", uf2("POW")(a.l, b.l))
@@ -361,7 +482,7 @@ class SV:
     def __abs__(self):
         if self.k == "int":
             return SV("int", z3.If(self.l >= 0, self.l, -self.l))
-        a = self.toreal()
+        a = self.toreal().flat()
         if a.k == "pinf":
             return a
         if a.p is not None:
@@ -371,7 +492,7 @@ class SV:
     # ---- comparisons ----------------------------------------------------------------------------
     @staticmethod
     def _cmp(a, b, f):
-        a, b = SV.lift(a), SV.lift(b)
+        a, b = SV.lift(a).flat(), SV.lift(b).flat()
         if a.k == "bool" and b.k == "bool":
             a, b = a.toint(), b.toint()
         if a.k in ("int", "bool") and b.k in ("int", "bool"):
@@ -501,6 +622,14 @@ class SV:
         a = self.toreal()
         if a.k == "pinf":
             return a
+        if a.k == "real" and a.d is not None:
+            if a.p is None:
+                a = a.flat()
+            else:
+                c = _const(a.l)
+                if c is not None and c == 0:
+                    return SV("real", a.p, None, a.d)
+                return SV("real", _exp_term(a.l) * a.p, None, a.d)
         c = _const(a.l)
         if a.p is None:
             if c is not None and c == 0:
@@ -518,6 +647,9 @@ class SV:
             return a
         if a.p is not None:
             raise Unsupported("log of log-kind")
+        if a.d is not None:
+            engine.defined(a.l >= 0, "log of negative")
+            return SV("real", ZERO, a.l, a.d)
         if z3.is_app(a.l) and a.l.decl().eq(EXP):
             return SV("real", a.l.arg(0))
         c = _const(a.l)
@@ -531,7 +663,7 @@ class SV:
         return (self + 1).log()
 
     def sqrt(self):
-        a = self.toreal()
+        a = self.toreal().flat()
         if a.k == "pinf":
             return a
         if a.p is not None:
@@ -547,7 +679,7 @@ class SV:
         return SV("real", t)
 
     def _uf(self, name):
-        a = self.toreal()
+        a = self.toreal().flat()
         if a.k == "pinf" or a.p is not None:
             raise Unsupported("%s of log-kind" % name)
         return SV("real", uf1(name)(a.l))
@@ -568,6 +700,8 @@ class SV:
         return self
 
     def isfinite(self):
+        if self.d is not None:
+            return self.flat().isfinite()
         if self.k == "pinf":
             return SV("bool", z3.BoolVal(False))
         if self.k == "real" and self.p is not None:
@@ -576,6 +710,105 @@ class SV:
 
 
 numbers.Number.register(SV)
+
+
+def _has_den(x):
+    return isinstance(x, SV) and x.k == "real" and x.d is not None
+
+
+def _pure_shift(x):
+    return isinstance(x, SV) and x.k == "real" and x.d is None and x.p is not None and _is_shift(x.p) and (_const(x.l) == 0)
+
+
+def _den_add(a, b):
+    """a + b keeping denominators symbolic; None if not applicable"""
+    if not (_has_den(a) or _has_den(b)):
+        return None
+    try:
+        a, b = SV.lift(a), SV.lift(b)
+    except Unsupported:
+        return None
+    if a.k in ("int", "bool"):
+        a = a.toreal()
+    if b.k in ("int", "bool"):
+        b = b.toreal()
+    if a.k != "real" or b.k != "real":
+        return None
+    for x, y in ((a, b), (b, a)):      # adding an exact zero
+        if y.d is None and y.p is None and _const(y.l) == 0:
+            return x
+    if a.p is None and b.p is None:                       # linear kinds: common denominator
+        if a.d == b.d:
+            return SV("real", a.l + b.l, None, a.d)
+        L = _den_lcm(a.d, b.d)
+        return SV("real", _mul_opt(a.l, _den_quot(L, a.d)) + _mul_opt(b.l, _den_quot(L, b.d)), None, L)
+    if a.p is not None and b.p is not None:               # log kinds: p's multiply, shifts cancel
+        d = _den_merge(a.d, b.d)
+        parts = []
+        for px in (a.p, b.p):
+            fs = _shift_factors(px)
+            if fs is None:
+                parts.append(px)
+                continue
+            for f in fs:                       # cancel shift symbols against the denominator
+                d2, removed = _den_remove(d, str(f))
+                if removed:
+                    d = d2
+                else:
+                    parts.append(f)
+        p = None
+        for x in parts:
+            p = x if p is None else p * x
+        return SV("real", a.l + b.l, ONE if p is None else p, d)
+    # one log kind, one linear kind
+    lg, ln = (a, b) if a.p is not None else (b, a)
+    if ln.d is not None:
+        ln = ln.flat()
+    return SV("real", lg.l + ln.l, lg.p, lg.d)
+
+
+def _den_sub(a, b):
+    if not isinstance(a, SV):
+        try:
+            a = SV.lift(a)
+        except Unsupported:
+            return None
+    if not isinstance(b, SV):
+        return None
+    if a.k not in ("real", "int", "bool") or b.k != "real":
+        return None
+    if _pure_shift(b):                                     # x - shift  ->  divide by the shift symbol
+        a = a.toreal()
+        if a.k != "real":
+            return None
+        if a.p is not None and a.p.eq(b.p) and a.d is None:
+            return SV("real", a.l)
+        return SV("real", a.l, ONE if a.p is None else a.p, _den_merge(a.d, ((str(b.p), b.p, 1),)))
+    if (_has_den(a) or _has_den(b)) and a.k == "real" and a.p is None and b.p is None:
+        return _den_add(a, SV("real", -b.l, None, b.d))
+    return None
+
+
+def _den_mul(a, b):
+    if not (_has_den(a) or _has_den(b)):
+        return None
+    try:
+        a, b = SV.lift(a), SV.lift(b)
+    except Unsupported:
+        return None
+    if a.k != "real" or b.k != "real":
+        a2 = a.toreal() if a.k in ("int", "bool") else a
+        b2 = b.toreal() if b.k in ("int", "bool") else b
+        if a2.k != "real" or b2.k != "real":
+            return None
+        a, b = a2, b2
+    if a.p is None and b.p is None:
+        for x, y in ((a, b), (b, a)):
+            c = _const(y.l) if y.d is None else None
+            if c is not None and c == 1:
+                return x
+        return SV("real", a.l * b.l, None, _den_merge(a.d, b.d))
+    return None
 
 
 def _exp_term(l):
@@ -644,7 +877,7 @@ def sv_min(a, b):
 
 
 def _maxmin(a, b, is_max):
-    a, b = SV.lift(a), SV.lift(b)
+    a, b = SV.lift(a).flat(), SV.lift(b).flat()
     if a.k == "bool" and b.k == "bool":
         return SV("bool", z3.Or(a.l, b.l) if is_max else z3.And(a.l, b.l))
     if a.k in ("int", "bool") and b.k in ("int", "bool"):
@@ -673,7 +906,7 @@ def _maxmin(a, b, is_max):
 
 def sv_where(c, a, b):
     c = SV.lift(c).tobool()
-    a, b = SV.lift(a), SV.lift(b)
+    a, b = SV.lift(a).flat(), SV.lift(b).flat()
     cc = c.const_value() if c.is_const() else None
     if cc is not None:
         return a if cc else b
@@ -690,15 +923,37 @@ def sv_where(c, a, b):
 
 def sv_logaddexp(a, b):
     """oracle-side log-space addition"""
-    a, b = SV.lift(a).toreal(), SV.lift(b).toreal()
+    a, b = SV.lift(a).toreal().flat(), SV.lift(b).toreal().flat()
     if _same(a.l, b.l):
         return SV("real", a.l, a.P() + b.P())
     return SV("real", ZERO, a.P() * _exp_term(a.l) + b.P() * _exp_term(b.l))
 
 
 def sv_eq_formula(a, b):
-    """z3 Bool: the two SVs denote the same value (sound; complete when the `l` parts agree syntactically)"""
+    """z3 Bool: the two SVs denote the same value (sound; complete when the `l` parts agree syntactically).
+    Polynomial identities are discharged syntactically (sum-of-monomials normal form) before reaching the solver."""
+    f = _sv_eq_formula(a, b)
+    if z3.is_eq(f) and f.arg(0).sort() == RS:
+        try:
+            if z3.simplify(f.arg(0) - f.arg(1), som=True).eq(ZERO):
+                return z3.BoolVal(True)
+        except z3.Z3Exception:
+            pass
+    return f
+
+
+def _sv_eq_formula(a, b):
     a, b = SV.lift(a), SV.lift(b)
+    if (a.k == "real" and a.d is not None) or (b.k == "real" and b.d is not None):
+        a2, b2 = a.toreal(), b.toreal()
+        if a2.k == "real" and b2.k == "real" and _same(a2.l, b2.l) if (a2.p is not None or b2.p is not None) else (a2.k == "real" and b2.k == "real"):
+            # cross-multiply the (positive) denominators: no division in the query
+            na = a2.p if a2.p is not None else (a2.l if b2.p is None else ONE)
+            nb = b2.p if b2.p is not None else (b2.l if a2.p is None else ONE)
+            if (a2.p is None) == (b2.p is None):
+                L = _den_lcm(a2.d, b2.d)
+                return _mul_opt(na, _den_quot(L, a2.d)) == _mul_opt(nb, _den_quot(L, b2.d))
+        a, b = a.flat(), b.flat()
     if a.k == "bool" or b.k == "bool":
         if a.k == "bool" and b.k == "bool":
             return a.l == b.l
@@ -723,6 +978,8 @@ def sv_eval(sv, model):
         return model.eval(e, model_completion=True)
     if sv.k == "pinf":
         return math.inf
+    if sv.k == "real" and sv.d is not None:
+        sv = sv.flat()
     if sv.k == "bool":
         return z3.is_true(ev(sv.l))
     if sv.k == "int":
@@ -802,6 +1059,8 @@ class FInfoConst:
 def finfo_clip_lo(x, lo):
     """max(x, finfo.min)"""
     x = SV.lift(x).toreal()
+    if x.k == "real" and (x.d is not None or _is_shift(x.p)):
+        return x        # an abstract (positive, otherwise arbitrary) shift stays abstract
     if x.k == "pinf" or x.p is None:
         return x          # finite reals are >= finfo.min
     return sv_max(x, lo.as_sv())
